@@ -269,24 +269,38 @@ def concretise(op, univ, views, seen):
     raise ValueError(name)
 
 
-def run_history(backend, sym_ops, univ, tmpdir, n):
-    """-> {"ops": concrete wire ops, "steps": [[res, view...] per op], "before": views before op 0}"""
+def run_history(backend, sym_ops, univ, tmpdir, n, quiet_from=None):
+    """-> {"ops": concrete wire ops, "steps": [[res, view...] per op]}.
+    Ops at index >= quiet_from (an index into sym_ops) are applied WITHOUT the dump after them
+    (the dump reads through get_events, which commits on sqlite): their step is [res] only, handles
+    are resolved against the last dump taken, and "final" holds the one dump taken at the end."""
     st = open_storage(backend, tmpdir, n)
     try:
         views = dump(st, univ)
         seen = set()
         ops, steps = [], []
-        for sop in sym_ops:
+        quiet_at = None
+        for idx, sop in enumerate(sym_ops):
             op = concretise(sop, univ, views, seen)
             if op is None:
                 continue
+            quiet = quiet_from is not None and idx >= quiet_from
+            if quiet and quiet_at is None:
+                quiet_at = len(ops)
             res = apply_op(st, op)
+            ops.append(op)
+            if quiet:
+                steps.append([res])
+                continue
             views = dump(st, univ)
             for v in views:
                 seen.update(live_ids(v))
-            ops.append(op)
             steps.append([res] + views)
-        return {"ops": ops, "steps": steps}
+        out = {"ops": ops, "steps": steps}
+        if quiet_from is not None:
+            out["quiet_at"] = len(ops) if quiet_at is None else quiet_at
+            out["final"] = dump(st, univ)
+        return out
     finally:
         close_storage(backend, st, tmpdir, n)
 
@@ -300,8 +314,10 @@ def _worker(args):
     out = []
     try:
         for n in range(lo, hi):
-            sym, univ = _WORK["hist"][n]
-            out.append({be: run_history(be, sym, univ, tmpdir, n) for be in _WORK["backends"]})
+            h = _WORK["hist"][n]
+            sym, univ = h[0], h[1]
+            q = h[2] if len(h) > 2 else None
+            out.append({be: run_history(be, sym, univ, tmpdir, n, q) for be in _WORK["backends"]})
     finally:
         shutil.rmtree(tmpdir, ignore_errors=True)
     return lo, out
@@ -358,6 +374,21 @@ def run_model_batch(prop, runs):
     cases = [common.sx([BACKEND_CODE[be], univ, ops]) for be, univ, ops in runs]
     outs = common.run_driver(prop, cases)
     return [[canon_step(s) for s in o] if o != [-999] else None for o in outs]
+
+
+def first_difference(model_steps, run):
+    """Index and the two sides of the first step on which model and implementation differ (None when
+    they agree).  Steps taken without a dump compare the result only; a quiet run also compares the
+    final dump with the model's views after the last op."""
+    steps = run["steps"]
+    if model_steps is None or len(model_steps) != len(steps):
+        return -1, model_steps, "driver could not decode the history"
+    for j, (ms, is_) in enumerate(zip(model_steps, steps)):
+        if (ms[:1] if len(is_) == 1 else ms) != is_:
+            return j, ms, is_
+    if "final" in run and steps and model_steps[-1][1:] != run["final"]:
+        return len(steps) - 1, model_steps[-1][1:], run["final"]
+    return None
 
 
 # ---------------------------------------------------------------------------
@@ -444,8 +475,10 @@ def gen_history(rng, malformed, max_ops=40):
                 ops.append(["get", b, -1, None, None])
         elif r < 0.68:
             h = idh()
-            if not malformed and rng.random() < 0.25:
-                h = ["dead", rng.randrange(0, 3)]       # "never existed" is inside the quantifier
+            if not malformed and rng.random() < 0.4:
+                # "never existed" is inside the quantifier: an id nobody ever issued, or (global id
+                # space of the SQL back ends) an id that is live in ANOTHER bucket
+                h = [rng.choice(["dead", "foreign", "foreign"]), rng.randrange(0, 3)]
             ops.append(["delete", b, h])
         elif r < 0.74:
             ops.append(["get_event", b, idh() if rng.random() < 0.8 or malformed else ["dead", 0]])
@@ -500,6 +533,8 @@ def boundary_histories():
                            ["insert", 1, e2], ["insert", 2, [None, BASE + t1 * SEC, d1 * SEC, 4]],
                            ["get", 1, 1, None, None], ["replace_last", 1, [None, BASE + t2 * SEC, 3 * SEC, 5]],
                            ["get", 1, -1, None, None], ["get", 2, -1, None, None],
+                           ["delete", 1, ["foreign", 0]], ["delete", 2, ["foreign", 1]],
+                           ["get", 1, -1, None, None], ["get", 2, -1, None, None],
                            ["delete", 1, ["live", 1]], ["insert", 1, [None, BASE + t1 * SEC, 0, 6]],
                            ["insert_many", 1, [[None, BASE + t2 * SEC, 0, 7], [["live", 0], BASE + t2 * SEC, d1 * SEC, 8],
                                                [None, BASE + t2 * SEC, SEC, 9]]],
@@ -530,6 +565,46 @@ def malformed_boundary_histories():
                    ["create", b, m], ["delete_bucket", b], ["delete_bucket", b], ["metadata", b], ["buckets"]]
             for i in range(len(bad)):
                 out.append((base + [["delete", 1, ["live", 1]]] + bad[i:i + 3], [1, 2, 3, MISSING_BUCKET]))
+    return out
+
+
+def quiet_histories(rng, n):
+    """Histories whose tail runs WITHOUT intermediate reads (a read commits on sqlite, so with a dump
+    after every op nothing is ever pending when a rejected call arrives): set-up with dumps, then
+    k unread ops = writes to the populated buckets interleaved with rejected / raising ops addressed
+    to another bucket (a bucket that does not exist, or dead ids), one dump at the end."""
+    out = []
+    for _ in range(n):
+        nb = rng.choice([2, 2, 3])
+        buckets = list(range(1, nb + 1))
+        univ = buckets + [MISSING_BUCKET]
+        pool = sorted(rng.sample(range(0, 9), 4))
+        ops = [["create", b, rnd_meta(rng)] for b in buckets]
+        for _ in range(rng.randrange(1, 6)):
+            ops.append(["insert", rng.choice(buckets), rnd_ev(rng, pool)])
+        quiet_from = len(ops)
+        x = rnd_ev(rng, pool)
+        for _ in range(rng.randrange(2, 12)):
+            r = rng.random()
+            b = rng.choice(buckets)
+            if r < 0.45:
+                ops.append(["insert", b, rnd_ev(rng, pool)])
+            elif r < 0.55:
+                ops.append(["insert_many", b, [rnd_ev(rng, pool) for _ in range(rng.choice([1, 2, 3]))]])
+            elif r < 0.66:
+                # (no deletes in the unread tail: memory/peewee re-issue a deleted newest id, and handles
+                # are resolved against the last dump taken)
+                ops.append(["replace", b, ["live", rng.randrange(0, 4)], rnd_ev(rng, pool)])
+            else:
+                a = rng.choice([MISSING_BUCKET, MISSING_BUCKET, rng.choice(buckets)])
+                rejected = [["replace", a, ["dead", rng.randrange(1000, 1010)], x],
+                            ["delete", a, ["dead", rng.randrange(1000, 1010)]]]
+                if a == MISSING_BUCKET:
+                    rejected += [["delete_bucket", a], ["delete_bucket", a], ["update", a, 3, None, None, None, None],
+                                 ["update", a, None, None, None, None, None], ["metadata", a],
+                                 ["insert", a, x], ["insert_many", a, [x, x]], ["replace_last", a, x]]
+                ops.append(rng.choice(rejected))
+        out.append((ops, univ, quiet_from))
     return out
 
 
